@@ -21,9 +21,10 @@
 (***************************************************************************)
 EXTENDS Bytes, Prim, HdwIO
 
-Bad   == [c |-> "bad",  neg |-> FALSE, mag |-> <<>>]
-Huge(neg) == [c |-> "huge", neg |-> neg, mag |-> <<>>]
-MkInt(c, neg, mag) == [c |-> c, neg |-> neg /\ ~BnIsZero(mag), mag |-> BnNorm(mag)]
+BadWhy(why) == [c |-> "bad", neg |-> FALSE, mag |-> <<>>, why |-> why]
+Bad   == BadWhy("malformed")
+Huge(neg) == [c |-> "huge", neg |-> neg, mag |-> <<>>, why |-> "too_large"]
+MkInt(c, neg, mag) == [c |-> c, neg |-> neg /\ ~BnIsZero(mag), mag |-> BnNorm(mag), why |-> ""]
 
 RECURSIVE DigitRunEnd(_, _)
 DigitRunEnd(cs, p) == IF p <= Len(cs) /\ IsDigitCode(cs[p]) THEN DigitRunEnd(cs, p + 1) ELSE p
@@ -65,17 +66,22 @@ DenoteJsonNumber(cs) ==
   IF M = <<>> THEN
        \* zero, however spelled; "-0" and 0e999 are left open
        MkInt(IF neg \/ Len(Ed) > 2 THEN "alt" ELSE "std", FALSE, <<>>)
-  ELSE IF Len(Ed) > 4 THEN (IF expNeg THEN Bad ELSE Huge(neg))
+  \* A fractional literal is "bad" with why = "fraction"; when it carries more than 15 significant digits or
+  \* a decimal exponent below -300 (more than a binary64 float resolves) why = "fraction_beyond_f64_precision":
+  \* a classification of the INPUT, used to tell the two findings apart.
+  ELSE IF Len(Ed) > 4 THEN (IF expNeg THEN BadWhy("fraction_beyond_f64_precision") ELSE Huge(neg))
   ELSE
   LET E  == BnToNat(BnFromDec(Ed))
       e  == (IF expNeg THEN 0 - E ELSE E) - Len(F) + t        \* value = M * 10^e
   IN
-  IF e < 0 THEN Bad                                            \* fractional
+  IF e < 0 THEN BadWhy(IF Len(M) > 15 \/ e < 0 - 300 THEN "fraction_beyond_f64_precision" ELSE "fraction")
   ELSE IF Len(M) + e > 78 THEN Huge(neg)
   ELSE
   LET mag == BnFromDec(M \o Zeros(e))
+      \* must-accept float/exponent forms: at most 15 digits written and a small exponent (any
+      \* binary64-based reader is exact there); everything else integral is an open spelling
       std == IF plain THEN BnLe(mag, Two53)
-             ELSE Len(M) <= 15 /\ BnLt(mag, Two53) /\ E <= 30
+             ELSE Len(I \o F) <= 15 /\ BnLt(mag, Two53) /\ E <= 22
   IN  MkInt(IF std THEN "std" ELSE "alt", neg, mag)
 
 \* ---- numeric strings (ASCII / UTF-8 codes) -------------------------------
@@ -124,7 +130,7 @@ DenoteString(cs) ==
 Denote(node) ==
   IF node.k = "num" THEN DenoteJsonNumber(StrToUtf8(node.v))
   ELSE IF node.k = "str" THEN DenoteString(StrToUtf8(node.v))
-  ELSE Bad
+  ELSE BadWhy("wrong_kind")
 
 -----------------------------------------------------------------------------
 (* Classification against a range.  Result [c |-> "accept" | "reject" |    *)
@@ -133,7 +139,7 @@ Denote(node) ==
 \* unsigned, value must be below 2^bits
 ClassUint(node, bits) ==
   LET d == Denote(node) IN
-  IF d.c \in {"bad", "huge"} THEN [c |-> "reject", v |-> <<>>, why |-> IF d.c = "bad" THEN "not_a_number" ELSE "too_large"]
+  IF d.c \in {"bad", "huge"} THEN [c |-> "reject", v |-> <<>>, why |-> d.why]
   ELSE IF d.neg THEN [c |-> "reject", v |-> <<>>, why |-> "negative"]
   ELSE IF BnBitLen(d.mag) > bits THEN [c |-> "reject", v |-> <<>>, why |-> "too_large"]
   ELSE [c |-> IF d.c = "std" THEN "accept" ELSE "either", v |-> d.mag, why |-> ""]
@@ -141,7 +147,7 @@ ClassUint(node, bits) ==
 \* signed two's complement of the given width: -2^(bits-1) <= value < 2^(bits-1)
 ClassInt(node, bits) ==
   LET d == Denote(node) IN
-  IF d.c \in {"bad", "huge"} THEN [c |-> "reject", neg |-> FALSE, v |-> <<>>, why |-> IF d.c = "bad" THEN "not_a_number" ELSE "int_range"]
+  IF d.c \in {"bad", "huge"} THEN [c |-> "reject", neg |-> FALSE, v |-> <<>>, why |-> IF d.c = "bad" THEN d.why ELSE "int_range"]
   ELSE IF d.neg /\ BnLt(BnPow2(bits - 1), d.mag) THEN [c |-> "reject", neg |-> TRUE, v |-> <<>>, why |-> "int_range"]
   ELSE IF ~d.neg /\ BnBitLen(d.mag) > bits - 1 THEN [c |-> "reject", neg |-> FALSE, v |-> <<>>, why |-> "int_range"]
   ELSE [c |-> IF d.c = "std" THEN "accept" ELSE "either", neg |-> d.neg, v |-> d.mag, why |-> ""]
